@@ -43,7 +43,12 @@ pub enum SegEdit {
   Truncate(u8),
   /// append 1 or 2 '=' to the footer segment (base64 padding: decodes to the same footer under a lenient decoder)
   Pad(u8),
+  /// the footer segment becomes (or, for a token without footer, a fourth segment is added that is) text that is no
+  /// unpadded base64url at all: "A", "=", "Zm9v=", "Zh" (non-zero trailing bits), "!!!!", "-", "AA=A", "A A"
+  Junk(u8),
 }
+
+pub const JUNK_SEGMENTS: [&str; 8] = ["A", "=", "Zm9v=", "Zh", "!!!!", "-", "AA=A", "A A"];
 
 pub const SEG_DELTAS: [usize; 12] = [1, 2, 3, 4, 255, 256, 257, 512, 1024, 65535, 65536, 65537];
 
@@ -127,7 +132,7 @@ impl Sub for FooterBinding {
     cl.tag(format!("related:{}", match &c.rel {
       Related::Same => "same", Related::EmptyVsNone => "none-vs-empty", Related::None => "none", Related::Empty => "empty", Related::Prefix(_) => "prefix",
       Related::Extend(_) => "extension", Related::CaseFlip => "case", Related::LastByte(_) => "last-byte", Related::Other(_) => "unrelated", Related::Decorate(..) => "invisible-decoration" }));
-    cl.tag(format!("edit:{}", match c.edit { SegEdit::Keep => "keep", SegEdit::Replace => "replace", SegEdit::Remove => "remove", SegEdit::Blank => "blank", SegEdit::Extend(_) => "extend", SegEdit::Truncate(_) => "truncate", SegEdit::Pad(_) => "pad" }));
+    cl.tag(format!("edit:{}", match c.edit { SegEdit::Keep => "keep", SegEdit::Replace => "replace", SegEdit::Remove => "remove", SegEdit::Blank => "blank", SegEdit::Extend(_) => "extend", SegEdit::Truncate(_) => "truncate", SegEdit::Pad(_) => "pad", SegEdit::Junk(_) => "junk" }));
     // (iii) shape of the produced token
     let (header, pseg, fseg) = split_token(&t).expect("well-formed token");
     let want_seg = if norm(f).is_empty() { None } else { Some(b64(norm(f).as_bytes())) };
@@ -168,6 +173,7 @@ impl Sub for FooterBinding {
           }
           SegEdit::Remove => None,
           SegEdit::Extend(i) => Some(format!("{}{}", cur_seg, "A".repeat(SEG_DELTAS[(i as usize) % SEG_DELTAS.len()]))),
+          SegEdit::Junk(k) => Some(JUNK_SEGMENTS[k as usize % JUNK_SEGMENTS.len()].to_string()),
           SegEdit::Pad(n) => {
             if cur_seg.is_empty() {
               return Verdict::Discard;
@@ -193,7 +199,7 @@ impl Sub for FooterBinding {
         if matches!(c.edit, SegEdit::Extend(_) | SegEdit::Truncate(_)) && fseg.is_none() && matches!(c.edit, SegEdit::Truncate(_)) {
           return Verdict::Discard;
         }
-        if norm(&edited_value) == norm(f) && !matches!(c.edit, SegEdit::Pad(_)) {
+        if norm(&edited_value) == norm(f) && !matches!(c.edit, SegEdit::Pad(_) | SegEdit::Junk(_)) {
           return Verdict::Discard; // the decoded footer value did not change
         }
         let edited = match &new_seg {
@@ -211,7 +217,7 @@ impl Sub for FooterBinding {
           }
           match r {
             Err(e) => cl.tag(format!("rejected:{}", e.variant)),
-            Ok(o) => vio!("C05:accepted-edited-footer-segment:{}:{}:{}:{}", p.label(), s.layer.label(), match c.edit { SegEdit::Replace => "Replace", SegEdit::Remove => "Remove", SegEdit::Blank => "Blank", SegEdit::Extend(_) => "Extend", SegEdit::Truncate(_) => "Truncate", SegEdit::Pad(_) => "Pad", SegEdit::Keep => "Keep" }, who;
+            Ok(o) => vio!("C05:accepted-edited-footer-segment:{}:{}:{}:{}", p.label(), s.layer.label(), match c.edit { SegEdit::Replace => "Replace", SegEdit::Remove => "Remove", SegEdit::Blank => "Blank", SegEdit::Extend(_) => "Extend", SegEdit::Truncate(_) => "Truncate", SegEdit::Pad(_) => "Pad", SegEdit::Junk(_) => "Junk", SegEdit::Keep => "Keep" }, who;
               "footer segment edited ({:?}: {:?} -> {:?}) yet accepted under the {} footer {:?}, returned {:?}; token {}", c.edit, f, edited_value, who, expect, o.message(), edited),
           }
         }
@@ -238,7 +244,7 @@ fn rel_strategy() -> BoxedStrategy<Related> {
 }
 
 fn case(proto: Proto, layer: Layer) -> BoxedStrategy<FooterCase> {
-  (tok_spec(proto, layer), rel_strategy(), prop_oneof![8 => Just(SegEdit::Keep), 4 => Just(SegEdit::Replace), 2 => Just(SegEdit::Remove), 2 => Just(SegEdit::Blank), 3 => any::<u8>().prop_map(SegEdit::Extend), 1 => any::<u8>().prop_map(SegEdit::Truncate), 1 => any::<u8>().prop_map(SegEdit::Pad)])
+  (tok_spec(proto, layer), rel_strategy(), prop_oneof![8 => Just(SegEdit::Keep), 4 => Just(SegEdit::Replace), 2 => Just(SegEdit::Remove), 2 => Just(SegEdit::Blank), 3 => any::<u8>().prop_map(SegEdit::Extend), 1 => any::<u8>().prop_map(SegEdit::Truncate), 1 => any::<u8>().prop_map(SegEdit::Pad), 2 => any::<u8>().prop_map(SegEdit::Junk)])
     .prop_map(|(tok, rel, edit)| FooterCase { tok, rel, edit })
     .boxed()
 }
